@@ -698,7 +698,7 @@ def call_fit(ctx, case, allow_reject=True, **kw):
 # independent component densities (pbv.oracles, explicit loops)
 # --------------------------------------------------------------------------
 
-def oracle_component_log_pdf(model, case, y=None, emb=None):
+def oracle_component_log_pdf(model, case, y=None, emb=None, streams=None):
     """log p_k(y_n) computed with the reference densities of pbv.oracles
     from the parameters stored in the model; shape (*lead, K, N)."""
     from pbv.oracles import densities as od
@@ -777,9 +777,21 @@ def oracle_component_log_pdf(model, case, y=None, emb=None):
                         float(np.asarray(v.concentration)[k]))
                 out[f, k] = model.spatial_weight * spatial + \
                     model.spectral_weight * spectral
+                if streams is not None:
+                    streams[0][f, k] = spatial
+                    streams[1][f, k] = spectral
     else:
         raise NotImplementedError(kind)
     return out
+
+
+def oracle_stream_log_pdfs(model, case):
+    """integration models: the reference log-densities of the two streams
+    separately, each (F, K, N), without the stream weights"""
+    F, K, N = case.lead[0], case.K, case.N
+    streams = (np.empty((F, K, N)), np.empty((F, K, N)))
+    oracle_component_log_pdf(model, case, streams=streams)
+    return streams
 
 
 # --------------------------------------------------------------------------
